@@ -119,6 +119,24 @@ type testUE struct {
 	psi      int
 	gtp      [4]byte
 	guti     []byte
+	enc, int int // selected algorithms (0 = NEA0; integrity 2 unless set to 1)
+}
+
+func (u *testUE) crypt(count, dir uint32, in []byte) []byte {
+	switch u.enc {
+	case 1:
+		return refcrypto.EEA1(u.keys.KnasEnc, count, 1, dir, in, 8*len(in))
+	case 2:
+		return refcrypto.EEA2(u.keys.KnasEnc, count, 1, dir, in)
+	}
+	return in
+}
+
+func (u *testUE) mac(count, dir uint32, p []byte) [4]byte {
+	if u.int == 1 {
+		return refcrypto.EIA1(u.keys.KnasInt, count, 1, dir, p, 8*len(p))
+	}
+	return refcrypto.EIA2(u.keys.KnasInt, count, 1, dir, p)
 }
 
 func uli(plmn [3]byte) *ngapType.UserLocationInformation {
@@ -343,8 +361,11 @@ func (u *testUE) protect(ht byte, plain []byte) []byte {
 	if ht == 3 || ht == 4 {
 		u.ul = 0
 	}
+	if ht == 2 || ht == 4 {
+		plain = u.crypt(u.ul, 0, plain)
+	}
 	p := append([]byte{byte(u.ul)}, plain...)
-	mac := refcrypto.EIA2(u.keys.KnasInt, u.ul, 1, 0, p)
+	mac := u.mac(u.ul, 0, p)
 	u.ul++
 	return append(append([]byte{0x7e, ht}, mac[:]...), p...)
 }
@@ -388,10 +409,25 @@ func dlNAS(t testing.TB, dl []byte) (uint64, []byte) {
 // Response, integrity-only Service Request, GUTI in the de-registration, no RAN node name,
 // PDU session identity 5, 3-digit MNC, AMF-UE-NGAP-ID above 2^32).
 func TestSelfAMFAcceptsConformantUE(t *testing.T) {
-	for _, variant := range []int{0, 1} {
+	for _, variant0 := range []int{0, 1, 2, 3} {
+		// variants 2 and 3: the AMF's own priority lists select NEA2/NIA1 and NEA1/NIA2 out of
+		// what the UE announces, and the UE ciphers accordingly
+		variant := variant0 % 2
+		enc, intg := 0, 2
+		if variant0 == 2 {
+			enc, intg = 2, 1
+		} else if variant0 == 3 {
+			enc, intg = 1, 2
+		}
 		prov := refamf.Provision{MCC: "901", MNC: "070", IMSI: "901070000000009", K: "465b5ce8b199b49faa5f0a2ee238a6bc", OP: "cdc202d5123e20f62b6d676ac72cb318", SST: 9, SD: "", GnbGTP: "10.9.8.7"}
 		if variant == 1 {
 			prov = refamf.Provision{MCC: "001", MNC: "01", IMSI: "00101012345", K: "465b5ce8b199b49faa5f0a2ee238a6bc", OPc: "cd63cb71954a9f4e48a5994e37a02baf", SST: 1, SD: "0a0b0c", GnbGTP: "192.168.0.1"}
+		}
+		snMCC, snMNC := prov.MCC, prov.MNC
+		if variant0 == 3 {
+			// a serving network other than the subscriber's home network: only the serving network name changes
+			prov.ServingMCC, prov.ServingMNC = "999", "70"
+			snMCC, snMNC = "999", "70"
 		}
 		sc := refamf.Scenario{Prov: prov, Policy: refamf.Policy{DistinctSUPI: true},
 			NGSetup: refamf.NGSetupChoice{RelativeCapacity: 255, AMFRegion: 2, AMFSet: 1023, AMFPointer: 63, ExtraGUAMIs: 1, ExtraSlices: 2}}
@@ -399,6 +435,10 @@ func TestSelfAMFAcceptsConformantUE(t *testing.T) {
 			sc.UEs = append(sc.UEs, refamf.UEChoice{RAND: "23553cbe9637a89d218ae64dae47bf35", SQN: "ff9bb4d0b607", AMFField: "b9b9", NgKSI: 3 * i, AMFUEID: 1<<40 - 1 - uint64(i)<<33,
 				Options: uint32(refamf.OptEnd-1) * uint32(i), UEIP: "10.45.0.2", UPFIP: "10.0.0.9", TEID: 0xffffffff, AMBRDL: 4000000000000, AMBRUL: 1, Cause5GSM: -1 + 51*i,
 				NQoSRules: 1 + 5*i, NFilters: 4 * i, NFlowDescs: 3 * i, FlowParams: 3 * i, SSCMode: 1, DNN: "internet", ReleaseCause: 36})
+			if variant0 >= 2 {
+				sc.UEs[i].EncPrio = []int{enc, 0, 3 - enc}
+				sc.UEs[i].IntPrio = []int{intg, 3 - intg}
+			}
 		}
 		a, err := refamf.New(sc)
 		if err != nil {
@@ -407,7 +447,7 @@ func TestSelfAMFAcceptsConformantUE(t *testing.T) {
 		step := func(what string, ul []byte, wantDL int) [][]byte {
 			dls, v := a.Handle(ul)
 			if v != nil {
-				t.Fatalf("variant %d: the reference AMF rejects a conformant %s: %v", variant, what, v)
+				t.Fatalf("variant %d: the reference AMF rejects a conformant %s: %v", variant0, what, v)
 			}
 			if len(dls) != wantDL {
 				t.Fatalf("variant %d: %s triggered %d downlink PDUs, expected %d", variant, what, len(dls), wantDL)
@@ -437,8 +477,8 @@ func TestSelfAMFAcceptsConformantUE(t *testing.T) {
 		msin0 := prov.IMSI[3+len(prov.MNC):]
 		var ues []*testUE
 		for i := 0; i < 2; i++ {
-			msin := fmt.Sprintf("%0*d", len(msin0), atoi(msin0)+i*3)
-			u := &testUE{ran: uint64(0xfffffffe + i), supi: prov.MCC + prov.MNC + msin, plmn: plmn, psi: 5 + 10*i*variant}
+			msin := fmt.Sprintf("%0*d", len(msin0), atoi(msin0)+i)
+			u := &testUE{ran: uint64(0xfffffffe + i), supi: prov.MCC + prov.MNC + msin, plmn: plmn, psi: 5 + 10*i*variant, enc: enc, int: intg}
 			copy(u.gtp[:], []byte{10, 9, 8, 7})
 			if variant == 1 {
 				copy(u.gtp[:], []byte{192, 168, 0, 1})
@@ -471,22 +511,26 @@ func TestSelfAMFAcceptsConformantUE(t *testing.T) {
 			if !bytes.Equal(mo.MacA[:], autn[8:16]) || autn[6]&0x80 == 0 {
 				t.Fatalf("AUTN of the reference AMF does not verify on the UE side (MAC-A %x, AUTN %x)", mo.MacA, autn)
 			}
-			mnc3 := prov.MNC
+			mnc3 := snMNC
 			if len(mnc3) == 2 {
 				mnc3 = "0" + mnc3
 			}
-			u.keys = refcrypto.Derive5G(mo.CK, mo.IK, mo.Res, rnd, sx, "5G:mnc"+mnc3+".mcc"+prov.MCC+".3gppnetwork.org", u.supi, 0, 2)
+			u.keys = refcrypto.Derive5G(mo.CK, mo.IK, mo.Res, rnd, sx, "5G:mnc"+mnc3+".mcc"+snMCC+".3gppnetwork.org", u.supi, byte(enc), byte(intg))
 			resp := append([]byte{0x7e, 0x00, 0x57, 0x2d, 0x10}, u.keys.ResStar...)
 			dl = step("AuthenticationResponse", u.uplinkNAS(t, resp), 1)
 			_, smc := dlNAS(t, dl[0])
 			// Security Mode Command: header type 3, DL COUNT 0, MAC under the derived key; NEA0/NIA2 selected
-			if smc[1] != 3 || smc[6] != 0 || refcrypto.EIA2(u.keys.KnasInt, 0, 1, 1, smc[6:]) != [4]byte{smc[2], smc[3], smc[4], smc[5]} || smc[9] != 0x5d || smc[10] != 0x02 {
+			if smc[1] != 3 || smc[6] != 0 || u.mac(0, 1, smc[6:]) != [4]byte{smc[2], smc[3], smc[4], smc[5]} || smc[9] != 0x5d || smc[10] != byte(enc<<4|intg) {
 				t.Fatalf("Security Mode Command: %x", smc)
 			}
 			smcpl := []byte{0x7e, 0x00, 0x5e}
 			dl = step("SecurityModeComplete", u.uplinkNAS(t, u.protect(4, smcpl)), 1)
 			_, ra := dlNAS(t, dl[0])
-			if ra[1] != 2 || ra[6] != 1 || refcrypto.EIA2(u.keys.KnasInt, 1, 1, 1, ra[6:]) != [4]byte{ra[2], ra[3], ra[4], ra[5]} || ra[9] != 0x42 {
+			if ra[1] != 2 || ra[6] != 1 || u.mac(1, 1, ra[6:]) != [4]byte{ra[2], ra[3], ra[4], ra[5]} {
+				t.Fatalf("Registration Accept: %x", ra)
+			}
+			ra = append(append([]byte(nil), ra[:7]...), u.crypt(1, 1, ra[7:])...)
+			if ra[9] != 0x42 {
 				t.Fatalf("Registration Accept: %x", ra)
 			}
 			if ra[12] != 0x77 || ra[14] != 0x0b {
@@ -628,6 +672,47 @@ func TestSelfAMFRejects(t *testing.T) {
 		}
 		u.amf = 0
 		_, v = a.Handle(u.uplinkNAS(t, append([]byte{0x7e, 0x00, 0x57, 0x2d, 0x10}, make([]byte, 16)...)))
+		return v
+	})
+	// a UE that announces 5G-EA2, is told by the AMF to use it (the AMF's own priority list
+	// prefers it), and then sends the Security Mode Complete with null ciphering
+	sc.UEs[0].EncPrio, sc.UEs[0].IntPrio = []int{2, 1, 0}, []int{2, 1}
+	expect("announced NEA2 is selected but not applied", "nas-", func(a *refamf.AMF) *refamf.Violation {
+		if _, v := a.Handle(ngSetupRequest(t, plmn, []byte{1, 2, 3}, 24, "x")); v != nil {
+			t.Fatal(v)
+		}
+		msin := "012345"
+		u := &testUE{ran: 7, plmn: plmn, supi: "00101" + msin, int: 2}
+		suci := append([]byte{0x01, plmn[0], plmn[1], plmn[2], 0xf0, 0xff, 0x00, 0x00}, bcd(msin)...)
+		rr := append([]byte{0x7e, 0x00, 0x41, 0x79, 0, byte(len(suci))}, suci...)
+		rr = append(rr, 0x2e, 0x02, 0xe0, 0x60)
+		dl, v := a.Handle(u.initialUE(t, rr))
+		if v != nil {
+			t.Fatal(v)
+		}
+		var ar []byte
+		u.amf, ar = dlNAS(t, dl[0])
+		var k, opc, rnd [16]byte
+		copy(k[:], unhex(prov.K))
+		copy(opc[:], unhex(prov.OPc))
+		copy(rnd[:], ar[8:24])
+		autn := ar[26:42]
+		mo := refcrypto.Milenage(k, opc, rnd, [6]byte{}, [2]byte{})
+		var sqn, sx [6]byte
+		for j := range sqn {
+			sx[j] = autn[j]
+			sqn[j] = autn[j] ^ mo.AK[j]
+		}
+		mo = refcrypto.Milenage(k, opc, rnd, sqn, [2]byte{autn[6], autn[7]})
+		u.keys = refcrypto.Derive5G(mo.CK, mo.IK, mo.Res, rnd, sx, "5G:mnc001.mcc001.3gppnetwork.org", u.supi, 2, 2)
+		dl, v = a.Handle(u.uplinkNAS(t, append([]byte{0x7e, 0x00, 0x57, 0x2d, 0x10}, u.keys.ResStar...)))
+		if v != nil {
+			t.Fatal(v)
+		}
+		if _, smc := dlNAS(t, dl[0]); smc[10] != 0x22 {
+			t.Fatalf("Security Mode Command selects %02x, expected NEA2/NIA2", smc[10])
+		}
+		_, v = a.Handle(u.uplinkNAS(t, u.protect(4, []byte{0x7e, 0x00, 0x5e}))) // u.enc == 0: not ciphered
 		return v
 	})
 }
